@@ -114,11 +114,11 @@ func helper2(call func()) { helper1(call) }
 func helper3(call func()) { helper2(call) }
 
 var shapes = map[string]func(call func()){
-	"helper1": helper1,
-	"helper2": helper2,
-	"helper3": helper3,
-	"closure": func(call func()) { func() { call() }() },
-	"nontest": nonTestHelper,
+	"helper1":  helper1,
+	"helper2":  helper2,
+	"helper3":  helper3,
+	"closure":  func(call func()) { func() { call() }() },
+	"nontest":  nonTestHelper,
 	"nontest2": func(call func()) { nonTestHelper(func() { helper1(call) }) },
 	"deep40":   func(call func()) { nonTestDeep(40, call) },
 	"deep100":  func(call func()) { helper2(func() { nonTestDeep(100, call) }) },
